@@ -576,7 +576,9 @@ def classify(graph, verdict):
     sub = slice_to(graph, node)
     feats = node_features(sub, node)
     sym = symptom(v2)
-    if "zip-partially-named-combine-upstream" in feats:
+    if "no-axes-left" in feats.get("zip-partially-named-combine-upstream", ()):
+        # (fixed in /repo by f032687d: a hit is a regression) the zip-combined upstream has no state left,
+        # but Workflow._create_graph still wired it as a stateful upstream
         return "consumer-of-zip-split-combined-by-one-field", node, feats, sym
     if "own-split+combiner-removes-all-upstream-axes" in feats and sym == "ValueError@_add_current_groups":
         return "own-split+combiner-removes-all-upstream-axes", node, feats, sym
